@@ -301,6 +301,12 @@ def main():
         i = args.index("--max")
         mx = int(args[i + 1])
         del args[i:i + 2]
+    only = None
+    if "--only" in args:
+        i = args.index("--only")
+        import re as _re
+        only = _re.compile(args[i + 1])
+        del args[i:i + 2]
     repo = "/repo"
     for prop in args:
         mod = importlib.import_module(f"sa.rules.{prop.lower()}")
@@ -313,7 +319,9 @@ def main():
         jobs = []
         for mod_name, qual in funcs:
             rel = ix.rel(mod_name)
-            if (rel, qual) in with_ob or len(funcs) <= mx:
+            if only is not None and not only.search(qual):
+                continue
+            if (rel, qual) in with_ob or len(funcs) <= mx or only is not None:
                 jobs.append((prop, repo, rel, qual, baseline, mode))
         jobs = jobs[:mx]
         if mode == "mutate":
